@@ -588,13 +588,10 @@ ObsEmit == lvl = 2 => LET o == ObsRecs[idx]
                                                     records |-> rp.records, lookups |-> rp.lookups])>>)
 
 \* family lists used by the .cfg files
-QuickFamilies == <<[name |-> "E1", n |-> 2000], [name |-> "E2", n |-> 800], [name |-> "E3", n |-> 800],
-                   [name |-> "E4", n |-> 600], [name |-> "E5", n |-> 300],
-                   [name |-> "R1", n |-> 1000], [name |-> "R2", n |-> 400], [name |-> "M", n |-> 6]>>
+QuickFamilies == <<[name |-> "E1", n |-> 1500], [name |-> "E2", n |-> 600], [name |-> "E3", n |-> 600],
+                   [name |-> "E4", n |-> 450], [name |-> "E5", n |-> 250],
+                   [name |-> "R1", n |-> 800], [name |-> "R2", n |-> 300], [name |-> "M", n |-> 5]>>
 ThoroughFamilies == <<[name |-> "E1", n |-> 8190], [name |-> "E2", n |-> 27000], [name |-> "E3", n |-> 8000],
                       [name |-> "E4", n |-> 5700], [name |-> "E5", n |-> 3000],
                       [name |-> "R1", n |-> 8000], [name |-> "R2", n |-> 3000], [name |-> "M", n |-> 20]>>
-TestFamilies == <<[name |-> "E1", n |-> 200], [name |-> "E2", n |-> 100], [name |-> "E3", n |-> 100],
-                  [name |-> "E4", n |-> 100], [name |-> "E5", n |-> 100], [name |-> "R1", n |-> 100],
-                  [name |-> "R2", n |-> 100], [name |-> "M", n |-> 8]>>
 =============================================================================
